@@ -392,6 +392,15 @@ class Ev:
             else:
                 args.append(self.ev(a))
         kw = {k.arg: self.ev(k.value) for k in n.keywords}
+        # regular expressions with constant pattern and subject: pure library functions
+        if fname in ("re.match", "re.fullmatch", "re.search") and not kw and len(args) == 2 \
+                and isinstance(args[0], str) and isinstance(args[1], str):
+            import re as _re
+            try:
+                m = getattr(_re, fname[3:])(args[0], args[1])
+            except _re.error:
+                raise Raised("re.error", n)
+            return None if m is None else ReMatch(m)
         # struct single-field models
         if fname == "struct.pack" and not kw:
             try:
@@ -452,6 +461,24 @@ class Ev:
         raise Unknown("call %s" % fname)
 
     def _method(self, recv, name, args, kw, n):
+        if recv is None:
+            raise Raised("AttributeError", n)
+        if isinstance(recv, ReMatch):
+            if name == "groups" and not kw:
+                return recv.m.groups(*args)
+            if name == "group" and not kw:
+                try:
+                    return recv.m.group(*args)
+                except IndexError:
+                    raise Raised("IndexError", n)
+            if name in ("start", "end", "span") and not kw:
+                return getattr(recv.m, name)(*args)
+            raise Unknown("match method %s" % name)
+        if isinstance(recv, str) and name in _STR_METHODS:
+            try:
+                return getattr(recv, name)(*args, **kw)
+            except (TypeError, ValueError) as e:
+                raise Raised(type(e).__name__, n)
         if isinstance(recv, int) and not isinstance(recv, bool) and name == "bit_length" and not args and not kw:
             return recv.bit_length()
         if isinstance(recv, int) and name == "to_bytes":
@@ -567,10 +594,44 @@ class Ev:
             raise Raised(cls, st)
         if isinstance(st, ast.Pass):
             return _FALL
+        if isinstance(st, ast.Try) and not st.finalbody:
+            try:
+                r = self.run_block(st.body)
+            except Raised as e:
+                for h in st.handlers:
+                    names = []
+                    if h.type is not None:
+                        names = [ast.unparse(x) for x in (h.type.elts if isinstance(h.type, ast.Tuple) else [h.type])]
+                    if h.type is None or e.cls in names or "Exception" in names or "BaseException" in names \
+                            or any(e.cls.split(".")[-1] == x.split(".")[-1] for x in names) \
+                            or (e.cls in ("UnicodeDecodeError", "UnicodeError") and "ValueError" in names) \
+                            or (e.cls in ("IndexError", "KeyError") and "LookupError" in names):
+                        if h.name:
+                            self.env[h.name] = Opaque("exception %s" % e.cls)
+                        return self.run_block(h.body)
+                raise
+            if r is not _FALL:
+                return r
+            return self.run_block(st.orelse)
         raise Unknown("stmt %s" % type(st).__name__)
 
 
 _FALL = object()
+
+_STR_METHODS = {"strip", "lstrip", "rstrip", "split", "rsplit", "startswith", "endswith", "lower", "upper", "isdigit",
+                "partition", "rpartition", "find", "rfind", "replace", "join", "encode", "isalnum", "isalpha",
+                "zfill", "splitlines", "count", "index"}
+
+
+class ReMatch(object):
+    """result of a folded re.match/fullmatch/search"""
+
+    def __init__(self, m):
+        self.m = m
+
+    def __bool__(self):
+        return True
+    __nonzero__ = __bool__
 
 
 def fold(repo, mod, node, env=None, self_cls=None):
